@@ -349,6 +349,10 @@ func runC06(r *Run) {
 	r.Floor("C06.R9", 6)
 	r.Floor("C06.R10", 4)
 	r.Floor("C06.R11", 1)
+	r.Floor("C06.R12", 1)
+	r.Floor("C06.R13", 2)
+	r.RuleDoc("C06.R12", "HighestRestartCount returns the running maximum of RestartCount over every container status (no container skipped)")
+	r.RuleDoc("C06.R13", "the canary pause / unpause readers are true exactly on their annotation value \"true\" (pause also on the Canary-Paused condition): nothing else counts as a manual unpause")
 	r.RuleDoc("C06.R10", "HighestRestartCount, MostRecentRestart, CannotStart and PendingCreate iterate a list covering regular, init and ephemeral container statuses")
 	r.RuleDoc("C06.R11", "every canary pod counted as current is handed to the evaluation")
 	r.NotCovered("numeric and timing semantics of the triggers (timestamp arithmetic beyond operand roles); the zero-evaluable-pod case (outside the statement); trigger formulations other than `measured > threshold` comparisons and now.After(start.Add(max)) are reported as undecided rather than analysed; that the persisted conditions reach the API server (C14)")
@@ -384,6 +388,8 @@ func runC06(r *Run) {
 	c06Sticky(c, reach)
 	failedConditionWrites(r, "C06.R3")
 	c06StatusLists(r)
+	c06RunningMax(r)
+	c06CanaryReaders(r)
 	c06AllCurrentEvaluated(c, reach)
 	canaryCreationGuard(r, "C06.R7")
 	c06Predicates(r)
@@ -2182,4 +2188,151 @@ func condWriteSites(fns map[*ssa.Function]bool) []condWriteSite {
 		}
 	}
 	return out
+}
+
+// ---------------------------------------------------------------------------------------------
+// R12: HighestRestartCount is the running maximum over all container statuses
+
+// c06RunningMax checks that the count returned by HighestRestartCount is a running maximum: the
+// result is a loop variable of the scan over the container statuses; every iteration compares the
+// element's RestartCount with it (no container is skipped before the comparison) and the variable
+// is replaced by the element's RestartCount exactly when that is larger.
+func c06RunningMax(r *Run) {
+	fn := r.Prog.Func(pkgPodUtils, "HighestRestartCount")
+	if fn == nil {
+		r.Fatal("anchor %s.HighestRestartCount not found", pkgPodUtils)
+		return
+	}
+	pos := r.Prog.Pos(fn.Pos())
+	construct := "highest restart count is a running maximum over every container"
+	var phi *ssa.Phi
+	for _, b := range fn.Blocks {
+		ret := returnOf(b)
+		if ret == nil || len(ret.Results) == 0 {
+			continue
+		}
+		ph, ok := stripConv(ret.Results[0]).(*ssa.Phi)
+		if !ok || (phi != nil && ph != phi) {
+			r.Undecided("C06.R12", construct, pos, shortFunc(fn), "the returned count is not one loop variable of a scan over the container statuses")
+			return
+		}
+		phi = ph
+	}
+	if phi == nil {
+		r.Undecided("C06.R12", construct, pos, shortFunc(fn), "no return found")
+		return
+	}
+	header := phi.Block()
+	k := newKeyer(fn)
+	paths, ok := loopBodyPaths(fn, k, header, 20000)
+	r.paths += len(paths)
+	if !ok || len(paths) == 0 {
+		r.Undecided("C06.R12", construct, pos, shortFunc(fn), "the returned count is not a loop variable (or path cap exceeded)")
+		return
+	}
+	isRC := func(v ssa.Value) bool { return allPathsEnd(stripConv(v), "RestartCount") }
+	isMax := func(v ssa.Value) bool { return stripConv(v) == ssa.Value(phi) }
+	resolve := func(p *Path, v ssa.Value) ssa.Value {
+		for i := 0; i < 32; i++ {
+			ph, isPhi := v.(*ssa.Phi)
+			if !isPhi || ph.Block() == header {
+				return v
+			}
+			nv := p.ResolveOnce(v)
+			if nv == v {
+				return v
+			}
+			v = nv
+		}
+		return v
+	}
+	okAll, detail, n := true, "", 0
+	bad := func(s string) {
+		if okAll {
+			okAll, detail = false, s
+		}
+	}
+	for _, p := range paths {
+		if len(p.Blocks) < 2 || p.Blocks[len(p.Blocks)-1] != header {
+			bad("an iteration leaves the scan early (return inside the loop)")
+			continue
+		}
+		n++
+		pred := p.Blocks[len(p.Blocks)-2]
+		var e ssa.Value
+		for j, pb := range header.Preds {
+			if pb == pred {
+				e = resolve(p, phi.Edges[j])
+			}
+		}
+		if e == nil {
+			continue
+		}
+		// max(old, element) written with the builtin needs no comparison
+		if call, isC := stripConv(e).(*ssa.Call); isC {
+			if b, isB := call.Call.Value.(*ssa.Builtin); isB && b.Name() == "max" && len(call.Call.Args) == 2 &&
+				(isMax(call.Call.Args[0]) && isRC(call.Call.Args[1]) || isMax(call.Call.Args[1]) && isRC(call.Call.Args[0])) {
+				continue
+			}
+		}
+		larger, notLarger, geq := false, false, false
+		for _, f := range p.Facts {
+			big, small, strict, okO := factOrder(f)
+			if !okO {
+				continue
+			}
+			switch {
+			case isRC(big) && isMax(small) && strict:
+				larger = true
+			case isRC(big) && isMax(small) && !strict:
+				geq = true
+			case isMax(big) && isRC(small):
+				notLarger = true
+			}
+		}
+		switch {
+		case larger || geq:
+			if !isRC(e) {
+				bad("an iteration finds a container with more restarts but does not take its RestartCount as the new maximum: " + shortFacts(p))
+			}
+		case notLarger:
+			if !isMax(e) {
+				bad("an iteration changes the maximum although the container has no more restarts: " + shortFacts(p))
+			}
+		default:
+			bad("an iteration skips the container without comparing its RestartCount with the running maximum: " + shortFacts(p))
+		}
+	}
+	if n == 0 {
+		bad("no iteration path")
+	}
+	r.Check("C06.R12", construct, pos, shortFunc(fn),
+		"every container status is compared with the running maximum and replaces it exactly when it has more restarts (so the trigger comparisons see the pod's highest container restart count)", okAll, detail)
+}
+
+// c06CanaryReaders (R13): the readers that feed IsPaused / IsUnpaused have exactly their documented
+// sources (decided by the reader tables of C08.R3, recorded here under C06: auto-pause fires unless
+// the canary-unpaused annotation is "true"; a canary paused by annotation or condition stays paused).
+func c06CanaryReaders(r *Run) {
+	trueVal, okT := r.Prog.constStr(pkgAPI, "ValueStringTrue")
+	if !okT {
+		r.Fatal("constant %s.ValueStringTrue not found", pkgAPI)
+		return
+	}
+	for _, rd := range []struct{ fn, key, cond string }{
+		{"IsCanaryDeploymentUnpaused", "ExtendedDaemonSetCanaryUnpausedAnnotationKey", ""},
+		{"IsCanaryDeploymentPaused", "ExtendedDaemonSetCanaryPausedAnnotationKey", "ConditionTypeCanaryPaused"},
+	} {
+		fn := r.Prog.Func(pkgEDS, rd.fn)
+		key, okK := r.Prog.constStr(pkgAPI, rd.key)
+		if fn == nil || !okK {
+			r.Fatal("anchor %s.%s or constant %s not found", pkgEDS, rd.fn, rd.key)
+			continue
+		}
+		condType := ""
+		if rd.cond != "" {
+			condType, _ = r.Prog.constStr(pkgAPI, rd.cond)
+		}
+		c08ReaderTableAs(r, "C06.R13", fn, key, trueVal, condType)
+	}
 }
